@@ -222,14 +222,30 @@ def r4_default_expand(ctx, res):
     sel = [r for r in w.rows if r[0] == 'store' and r[1].startswith('self._expanded = ') and r[2]]
     key = 'default-expand'
     res.inst(key, loc, 'specifier when expand is None')
-    m = None
-    if len(sel) == 1:
-        spec = next(iter(sel[0][2]))
-        m = re.match(r"^\('\*' if (.+?) else (.+)\) if expand is None else expand$", spec)
-    if not m:
+    # the specifier handed to find_lexicons, as a decision table: expand given -> expand; expand None & default mode -> '*';
+    # expand None & not default mode -> the joined dependency specifiers
+    mode = deps_expr = None
+    if len(sel) == 1 and sel[0][4].rhs is not None:
+        from ..effects import decision_leaves, canon
+        specs = [k.value for n in ast.walk(sel[0][4].rhs) if isinstance(n, ast.Call) and norm(n.func) == 'find_lexicons'
+                 for k in n.keywords if k.arg == 'lexicon']
+        if len(specs) == 1:
+            table = decision_leaves(specs[0])
+            given = [t for t in table if t == (frozenset({'expand is not None'}), 'expand')]
+            star = [t for t in table if t[1] == "'*'" and 'expand is None' in t[0]]
+            deps = [t for t in table if 'expand is None' in t[0] and t[1] != "'*'"]
+            if len(table) == 3 and len(given) == 1 and len(star) == 1 and len(deps) == 1:
+                ms = sorted(star[0][0] - {'expand is None'})
+                md = sorted(deps[0][0] - {'expand is None'})
+                # the two conditions are complementary: the star conditions are atoms, the dependency condition their negation
+                if ms == ['not lang', 'not lexicon'] and md == ['lexicon or lang']:
+                    mode = 'not lexicon and (not lang)'
+                elif ms == ['self._default_mode'] and md == ['not self._default_mode']:
+                    mode = 'self._default_mode'
+                deps_expr = deps[0][1]
+    if mode is None:
         res.find(key, loc, 'Wordnet.__init__ no longer computes a default for expand=None ("*" in default mode, else the declared dependencies)')
         return
-    mode, deps_expr = m.group(1), m.group(2)
     key = 'default-expand:star'
     res.inst(key, loc, mode)
     if mode not in ('not lexicon and (not lang)', 'self._default_mode', 'not lexicon and not lang'):
